@@ -35,41 +35,15 @@ def envelope(ctx):
     return k
 
 
-def run(ctx):
-    binary = vlib.build_harness(ctx)
-    vlib.design_check(ctx, "agwpe", "Agwpe", "Agwpe_block.cfg")
-    vlib.design_check(ctx, "agwpe", "AgwpeTx", "AgwpeTx_safety.cfg")
-    vlib.design_check(ctx, "agwpe", "AgwpeMux", "AgwpeMux_safety.cfg")
-    if ctx.tier != "quick":
-        vlib.design_check(ctx, "agwpe", "AgwpeMux", "AgwpeMux_three.cfg")
-    lv = vlib.tlc(ctx, "agwpe", "AgwpeMux", "AgwpeMux_liveness.cfg")
-    if not lv.ok:
-        raise vlib.Undecided("AgwpeMux_liveness.cfg: %s" % (lv.error or lv.out[-500:]))
-    bp = vlib.tlc(ctx, "agwpe", "AgwpeMux", "AgwpeMux_byport.cfg")
-    if bp.violated != "FlushSound":
-        raise vlib.Undecided("the deviation MatchByPort of AgwpeMux.tla no longer violates FlushSound")
-    # polls that give up before their reply has come: the late reply must not stop the demux (one-shot requests have room
-    # for their one frame); without that room the demux goroutine blocks for ever
-    vlib.design_check(ctx, "agwpe", "AgwpeMux", "AgwpeMux_timeout.cfg")
-    lv2 = vlib.tlc(ctx, "agwpe", "AgwpeMux", "AgwpeMux_timeoutlive.cfg")
-    if not lv2.ok:
-        raise vlib.Undecided("AgwpeMux_timeoutlive.cfg: %s" % (lv2.error or lv2.out[-500:]))
-    ub = vlib.tlc(ctx, "agwpe", "AgwpeMux", "AgwpeMux_unbuffered.cfg")
-    if ub.violated != "DemuxLive":
-        raise vlib.Undecided("the deviation of AgwpeMux.tla (one-shot requests without room for their frame) no longer violates DemuxLive")
-    obs = vlib.tlc(ctx, "agwpe", "AgwpeTx", "AgwpeTx_liveness.cfg")
-    ctx.notes.append("AgwpeTx_liveness.cfg: WriteReturns %s (observation, not part of C13: a TNC that transmits a frame before the next poll is never "
-                     "seen with an outstanding frame)" % ("violated" if obs.error else "holds"))
-    dev = vlib.tlc(ctx, "agwpe", "Agwpe", "Agwpe_drop.cfg")
-    if dev.violated != "InOrderNoLossNoDup":
-        raise vlib.Undecided("the implementation-shaped configuration no longer exhibits DropWhenFull")
-    env = envelope(ctx)
-    traces = ctx.path("traces.ndjson")
-    p = vlib.run_harness(ctx, binary, ["agwpe", "--out", traces, "--n", "30" if ctx.tier == "quick" else "1500"], timeout=6000)
-    if p.returncode != 0:
-        raise vlib.Undecided("agwpe harness failed: rc=%d %s" % (p.returncode, p.stderr[-3000:]))
-    st = json.loads(p.stdout.strip().splitlines()[-1])
-    acc, rejected, _ = vlib.validate_traces(ctx, "agwpe", "AgwpePropsTrace", "AgwpePropsTrace.cfg", traces, st["traces"])
+def _cand(key, what, replay):
+    return {"key": key, "what": what, "replay": replay, "scen": replay.get("scenario")}
+
+
+def analyse(ctx, traces, ntraces, tag=""):
+    """Validates the recorded schedules of one harness run against the trace specifications.  Returns the candidate violations
+    (not yet reported) and the figures for the evidence file."""
+    found = []
+    acc, rejected, _ = vlib.validate_traces(ctx, "agwpe", "AgwpePropsTrace", "AgwpePropsTrace.cfg", traces, ntraces, name=tag + "props")
     rows = vlib.read_ndjson(traces)
     # mechanism trace validation: the library's own debug log of every inbound schedule against Agwpe.tla
     mech_rows, mech_of = [], {}
@@ -80,9 +54,9 @@ def run(ctx):
             if ev["op"] == "Mech" and ev["log"] and sum(1 for e in ev["log"] if e["op"] == "Recv") <= 16:
                 mech_rows.append({"t": len(mech_rows) + 1, "ev": ev["log"], "scen": row["scen"]})
                 mech_of[ti + 1] = len(mech_rows)
-    mech_file = ctx.path("mech.ndjson")
+    mech_file = ctx.path(tag + "mech.ndjson")
     vlib.write_ndjson(mech_file, mech_rows)
-    macc, mrej, _ = vlib.validate_traces(ctx, "agwpe", "AgwpeTrace", "AgwpeTrace.cfg", mech_file, len(mech_rows), name="mech")
+    macc, mrej, _ = vlib.validate_traces(ctx, "agwpe", "AgwpeTrace", "AgwpeTrace.cfg", mech_file, len(mech_rows), name=tag + "mech")
     unexplained = {mt: ml for (mt, ml) in mrej}
     drops = sum(1 for r in mech_rows for e in r["ev"] if e["op"] == "Drop")
     for mt, ml in sorted(unexplained.items()):
@@ -90,10 +64,10 @@ def run(ctx):
         e = r["ev"][ml - 1] if 0 < ml <= len(r["ev"]) else {}
         if e.get("op") == "RRet":
             # what the application read is not what the pipeline of Agwpe.tla, with exactly the logged drops, can deliver
-            vlib.report_violation(ctx, "C13/read/unexplained-by-logged-drops/%s" % r["scen"].get("pace"),
+            found.append(_cand("C13/read/unexplained-by-logged-drops/%s" % r["scen"].get("pace"),
                                   "Read returned frame %s at log position %d, which the demux pipeline of Agwpe.tla with the logged drops cannot deliver (loss without a "
                                   "logged drop, reordering or duplicate); log %s" % (e.get("i"), ml, [(x["op"], x.get("i", "")) for x in r["ev"]][:80]),
-                                  {"scenario": r["scen"], "log": r["ev"], "position": ml})
+                                  {"scenario": r["scen"], "log": r["ev"], "position": ml}))
         else:
             ctx.drift.append("SPEC-DRIFT: Agwpe.tla cannot follow the library's debug log of schedule %s at position %d (%s)" % (r["scen"], ml, e))
     # transmit side: the TNC's view of D frames and Y polls merged with the Write / Flush calls against AgwpeTx.tla
@@ -110,19 +84,19 @@ def run(ctx):
                     tx_rows.append({"t": len(tx_rows) + 1, "ev": log, "nw": sum(1 for e in log if e["op"] == "writeCall"), "scen": row["scen"]})
     tacc = 0
     if tx_rows:
-        tf = ctx.path("tx.ndjson")
+        tf = ctx.path(tag + "tx.ndjson")
         vlib.write_ndjson(tf, tx_rows)
-        tacc, trej, _ = vlib.validate_traces(ctx, "agwpe", "AgwpeTxTrace", "AgwpeTxTrace.cfg", tf, len(tx_rows), name="tx")
+        tacc, trej, _ = vlib.validate_traces(ctx, "agwpe", "AgwpeTxTrace", "AgwpeTxTrace.cfg", tf, len(tx_rows), name=tag + "tx")
         for (tt, tl) in trej:
             r = tx_rows[tt - 1]
             e = r["ev"][tl - 1] if 0 < tl <= len(r["ev"]) else {}
             shown = [(x["op"], x["v"]) for x in r["ev"]][max(0, tl - 6):tl]
             if e.get("op") == "flushRet":
-                vlib.report_violation(ctx, "C13/flush/before-empty", "Flush returned although the last Y poll was not answered with 0 outstanding frames: ... %s" % shown,
-                                      {"scenario": r["scen"], "log": r["ev"], "position": tl})
+                found.append(_cand("C13/flush/before-empty", "Flush returned although the last Y poll was not answered with 0 outstanding frames: ... %s" % shown,
+                                      {"scenario": r["scen"], "log": r["ev"], "position": tl}))
             elif e.get("op") == "D":
-                vlib.report_violation(ctx, "C13/write/window", "a data frame was sent without a Y poll answered with at most MAXFRAME outstanding frames before it: ... %s" % shown,
-                                      {"scenario": r["scen"], "log": r["ev"], "position": tl})
+                found.append(_cand("C13/write/window", "a data frame was sent without a Y poll answered with at most MAXFRAME outstanding frames before it: ... %s" % shown,
+                                      {"scenario": r["scen"], "log": r["ev"], "position": tl}))
             else:
                 msg = "SPEC-DRIFT: AgwpeTx.tla cannot follow the transmit log of schedule %s at position %d: ... %s" % (r["scen"], tl, shown)
                 print(msg[:500])
@@ -135,17 +109,17 @@ def run(ctx):
                 mux_rows.append({"t": len(mux_rows) + 1, "ev": ev["log"], "scen": row["scen"]})
     xacc = 0
     if mux_rows:
-        xf = ctx.path("mux.ndjson")
+        xf = ctx.path(tag + "mux.ndjson")
         vlib.write_ndjson(xf, mux_rows)
-        xacc, xrej, _ = vlib.validate_traces(ctx, "agwpe", "AgwpeMuxTrace", "AgwpeMuxTrace.cfg", xf, len(mux_rows), name="mux")
+        xacc, xrej, _ = vlib.validate_traces(ctx, "agwpe", "AgwpeMuxTrace", "AgwpeMuxTrace.cfg", xf, len(mux_rows), name=tag + "mux")
         for (tt, tl) in xrej:
             r = mux_rows[tt - 1]
             e = r["ev"][tl - 1] if 0 < tl <= len(r["ev"]) else {}
             shown = [(x["op"], x["c"], x["n"]) for x in r["ev"]][max(0, tl - 8):tl]
             if e.get("op") == "FlushRet":
-                vlib.report_violation(ctx, "C13/flush/not-this-connections-report",
+                found.append(_cand("C13/flush/not-this-connections-report",
                                       "with two connections open on the port, Flush of %s returned although the TNC had not reported 0 outstanding frames "
-                                      "for that connection: ... %s" % (e.get("c"), shown), {"scenario": r["scen"], "log": r["ev"], "position": tl})
+                                      "for that connection: ... %s" % (e.get("c"), shown), {"scenario": r["scen"], "log": r["ev"], "position": tl}))
             else:
                 msg = "SPEC-DRIFT: AgwpeMux.tla cannot follow the per-connection log of schedule %s at position %d: ... %s" % (r["scen"], tl, shown)
                 print(msg[:500])
@@ -190,7 +164,87 @@ def run(ctx):
         else:
             key = "C13/crash/" + (ev.get("func") or ev.get("site") or "?")
             what = "the process died: %s in %s (scenario %s)" % (ev.get("site"), ev.get("func"), sc)
-        vlib.report_violation(ctx, key, what, {"scenario": sc, "event": ev, "events": row["ev"]})
+        found.append(_cand(key, what, {"scenario": sc, "event": ev, "events": row["ev"]}))
+    return found, dict(acc=acc, rows=rows, tacc=tacc, tx_rows=tx_rows, xacc=xacc, mux_rows=mux_rows, macc=macc, mech_rows=mech_rows, drops=drops)
+
+
+def run(ctx):
+    binary = vlib.build_harness(ctx)
+    vlib.design_check(ctx, "agwpe", "Agwpe", "Agwpe_block.cfg")
+    vlib.design_check(ctx, "agwpe", "AgwpeTx", "AgwpeTx_safety.cfg")
+    vlib.design_check(ctx, "agwpe", "AgwpeMux", "AgwpeMux_safety.cfg")
+    if ctx.tier != "quick":
+        vlib.design_check(ctx, "agwpe", "AgwpeMux", "AgwpeMux_three.cfg")
+    lv = vlib.tlc(ctx, "agwpe", "AgwpeMux", "AgwpeMux_liveness.cfg")
+    if not lv.ok:
+        raise vlib.Undecided("AgwpeMux_liveness.cfg: %s" % (lv.error or lv.out[-500:]))
+    bp = vlib.tlc(ctx, "agwpe", "AgwpeMux", "AgwpeMux_byport.cfg")
+    if bp.violated != "FlushSound":
+        raise vlib.Undecided("the deviation MatchByPort of AgwpeMux.tla no longer violates FlushSound")
+    # polls that give up before their reply has come: the late reply must not stop the demux (one-shot requests have room
+    # for their one frame); without that room the demux goroutine blocks for ever
+    vlib.design_check(ctx, "agwpe", "AgwpeMux", "AgwpeMux_timeout.cfg")
+    lv2 = vlib.tlc(ctx, "agwpe", "AgwpeMux", "AgwpeMux_timeoutlive.cfg")
+    if not lv2.ok:
+        raise vlib.Undecided("AgwpeMux_timeoutlive.cfg: %s" % (lv2.error or lv2.out[-500:]))
+    ub = vlib.tlc(ctx, "agwpe", "AgwpeMux", "AgwpeMux_unbuffered.cfg")
+    if ub.violated != "DemuxLive":
+        raise vlib.Undecided("the deviation of AgwpeMux.tla (one-shot requests without room for their frame) no longer violates DemuxLive")
+    obs = vlib.tlc(ctx, "agwpe", "AgwpeTx", "AgwpeTx_liveness.cfg")
+    ctx.notes.append("AgwpeTx_liveness.cfg: WriteReturns %s (observation, not part of C13: a TNC that transmits a frame before the next poll is never "
+                     "seen with an outstanding frame)" % ("violated" if obs.error else "holds"))
+    dev = vlib.tlc(ctx, "agwpe", "Agwpe", "Agwpe_drop.cfg")
+    if dev.violated != "InOrderNoLossNoDup":
+        raise vlib.Undecided("the implementation-shaped configuration no longer exhibits DropWhenFull")
+    env = envelope(ctx)
+    traces = ctx.path("traces.ndjson")
+    p = vlib.run_harness(ctx, binary, ["agwpe", "--out", traces, "--n", "30" if ctx.tier == "quick" else "1500"], timeout=6000)
+    if p.returncode != 0:
+        raise vlib.Undecided("agwpe harness failed: rc=%d %s" % (p.returncode, p.stderr[-3000:]))
+    st = json.loads(p.stdout.strip().splitlines()[-1])
+    found, A = analyse(ctx, traces, st["traces"])
+    acc, rows, tacc, tx_rows, xacc, mux_rows, macc, mech_rows, drops = (A[k] for k in ("acc", "rows", "tacc", "tx_rows", "xacc", "mux_rows", "macc", "mech_rows", "drops"))
+    # Everything here runs in real time against goroutines nobody schedules for us.  A schedule that fails while sixteen cores
+    # are busy with other schedules (and whatever else runs on the machine) is run again on its own, twice, nothing beside
+    # it; what the code does wrong it does then too.  A failure that does not come back is left out of the verdict and
+    # counted in the evidence file.  (The known finding is attributed by the library's own log, not by re-running.)
+    known = [c for c in found if c["key"] == "C13/loss/drop-when-full"]
+    cands = [c for c in found if c["key"] != "C13/loss/drop-when-full"]
+    confirmed, unreproduced = [], []
+    if cands:
+        scens, seen = [], set()
+        for c in cands:
+            k = json.dumps(c["scen"], sort_keys=True)
+            if c["scen"] and k not in seen and len(scens) < 24:
+                seen.add(k)
+                scens.append(c["scen"])
+        again = set()
+        if scens:
+            sf, rt = ctx.path("rerun-scen.json"), ctx.path("rerun.ndjson")
+            with open(sf, "w") as f:
+                # (the recorder writes empty lists as "")
+                json.dump([{k: v for k, v in sc.items() if not (v == "" and k in ("frames", "segs", "via", "writes"))} for sc in scens], f)
+            p2 = vlib.run_harness(ctx, binary, ["agwpe", "--rerun", sf, "--times", "2", "--out", rt], timeout=6000)
+            if p2.returncode != 0:
+                raise vlib.Undecided("agwpe confirmation run failed: rc=%d %s" % (p2.returncode, p2.stderr[-2000:]))
+            st2 = json.loads(p2.stdout.strip().splitlines()[-1])
+            found2, _ = analyse(ctx, rt, st2["traces"], tag="rerun-")
+            known += [c for c in found2 if c["key"] == "C13/loss/drop-when-full"]
+            again = {json.dumps(c["scen"], sort_keys=True) for c in found2 if c["key"] != "C13/loss/drop-when-full"}
+        for c in cands:
+            k = json.dumps(c["scen"], sort_keys=True)
+            if not c["scen"] or k in again or k not in seen:
+                confirmed.append(c)
+            else:
+                unreproduced.append(c)
+    for c in known[:3] + confirmed:
+        vlib.report_violation(ctx, c["key"], c["what"], c["replay"])
+    for c in unreproduced:
+        msg = "NOT-REPRODUCED: %s failed once among the parallel schedules and not in two runs on its own: %s" % (c["key"], c["what"][:300])
+        print(msg)
+        ctx.notes.append(msg)
+    if len(unreproduced) > max(3, len(rows) // 10):
+        raise vlib.Undecided("%d schedules failed under load and passed on their own: the machine is too busy for a verdict" % len(unreproduced))
     vlib.write_evidence(ctx, "model_checking", {
         "traces_validated_against_impl": acc,
         "evaluations": st["traces"],
@@ -205,5 +259,6 @@ def run(ctx):
         "mechanism_traces_validated": macc,
         "mechanism_traces_total": len(mech_rows),
         "logged_drops_explained": drops,
+        "failed_under_load_only": len(unreproduced),
     }, ["TLC", "simulated TNC and AGWPE header lexer written from the AGWPE TCP/IP API description", "internal goroutine interleavings of the "
         "library are not controlled; paced schedules never ask the pipeline to hold two frames", "real time: 200 ms polls of the library"])
